@@ -140,6 +140,8 @@ def main(argv=None):
     ap.add_argument("--no-evidence", action="store_true")
     args = ap.parse_args(argv)
     common.reexec_hashseed()
+    common.sweep_stale_scratch()
+    common.scratch_root()           # owns the scratch tree of this check; removed at exit
     common.use_repo()
     prop = args.prop.upper()
     mod = importlib.import_module(f"checks.{prop.lower()}")
